@@ -40,6 +40,7 @@ type scenario struct {
 	scopes    []string // additional scopes as configured (duplicates possible)
 	transport string   // tcp | websocket | tls | kcp | quic
 	barrage   bool
+	emptyTok  bool // token method with an EMPTY auth.token (frps started without a token): the credential is md5("" ++ ts)
 	expiry    bool // OIDC: a short-lived token is used while valid and replayed after it expired
 	plugin    bool // a scripted NewWorkConn server plugin (http) rewrites / rejects the content
 }
@@ -865,6 +866,10 @@ func runCase(seed int64, idx int, addr string, sc scenario, ow *oidcWorld) (stri
 		for _, x := range sc.scopes {
 			c.Auth.AdditionalScopes = append(c.Auth.AdditionalScopes, v1.AuthScope(x))
 		}
+		if sc.emptyTok {
+			c.Auth.Token = ""
+			cx.token = ""
+		}
 		if sc.method == "oidc" {
 			c.Auth.Method = v1.AuthMethodOIDC
 			c.Auth.Token = ""
@@ -913,6 +918,9 @@ func runCase(seed int64, idx int, addr string, sc scenario, ow *oidcWorld) (stri
 	}
 	if sc.plugin {
 		cx.dist["case-scenario:workconn-plugin"]++
+	}
+	if sc.emptyTok {
+		cx.dist["case-scenario:empty-token"]++
 	}
 	nsteps := 8 + g.Intn(14)
 	pBad := 0.45
@@ -1058,6 +1066,7 @@ func runAuth(cfg *hx.RunCfg) error {
 			sc.transport = transports[(i/7)%len(transports)]
 		}
 		sc.barrage = i%10 == 9
+		sc.emptyTok = sc.method == "token" && i%8 == 1
 		if !sc.barrage && i%5 == 3 {
 			sc.plugin = true
 			sc.scopes = [][]string{{"NewWorkConns"}, {"HeartBeats", "NewWorkConns"}, {"NewWorkConns"}, {}, {"NewWorkConns", "HeartBeats", "NewWorkConns"}}[(i/5)%5]
@@ -1117,7 +1126,8 @@ func runAuth(cfg *hx.RunCfg) error {
 			"Definition NOIDCEXPIREDREFUSED := Eval vm_compute in c04_count_expired_refused cases.\nPrint NOIDCEXPIREDREFUSED.\n" +
 			"Definition NPLUGREWRITEREFUSED := Eval vm_compute in c04_count_rewrite_refused cases.\nPrint NPLUGREWRITEREFUSED.\n" +
 			"Definition NPLUGREWRITEPOOLED := Eval vm_compute in c04_count_rewrite_pooled cases.\nPrint NPLUGREWRITEPOOLED.\n" +
-			"Definition NPLUGREJECT := Eval vm_compute in c04_count_code 39 cases.\nPrint NPLUGREJECT.\n",
+			"Definition NPLUGREJECT := Eval vm_compute in c04_count_code 39 cases.\nPrint NPLUGREJECT.\n" +
+			"Definition NEMPTYTOKENREFUSED := Eval vm_compute in c04_count_empty_token_refused cases.\nPrint NEMPTYTOKENREFUSED.\n",
 	}
 	dist := map[string]int{}
 	distinct := map[string]bool{}
